@@ -9,7 +9,7 @@
      fs       : FS <ndisks> { X- | X <nfiles> { <name> <size> <mtime> <nsec> <inode> <nblk> <id>* }* }*
      hashes   : H <n> { <bid> <len> <hval> }*          (anything absent hashes to a fresh value 1000000+bid*4096+len)
      faults   : Q <n> { <pos> <disk> <E|I|F> }*
-     wfaults  : W <n> { <pos> <level> <E|N> <lag> }*   (E = EIO -> WEio, N = anything else (ENOSPC) -> WErr, S<count> / T<count> = short count with a stale errno other than / equal to EIO, classified by classify_pwrite; lag = schedule of that writer's report)
+     wfaults  : W <n> { <pos> <level> <E|N> <lag> }*   (E = EIO -> WEio, N = anything else (ENOSPC) -> WErr, S<count> = short count, classified by classify_pwrite; lag = schedule of that writer's report)
    request  : syncw <force_full> <force_parity_update> <io_limit> <now> <bs> <nlev> <stop|-1> <start> <max> M <io_cache> <lag> H.. C.. P.. FS.. Q.. W..
    reply    : ok <nerr> <nsilent> <nio> <bailed> <nfail> <nlost> <iterations completed> C.. P..
    request  : scrub1 <limit> <io_before> <now> <time> <bad> <rehash> <just> D <n> { <used> <invalid> <file> <tsdiff> <updhash> <O1|O0|E|I|FI|F> }* L <n> { <P1|P0|E|I|FI|F> }*
@@ -153,7 +153,7 @@ let parse_faults t =
 let parse_wfaults t =
   expect t "W";
   let n = nint t in
-  let l = rep n (fun () -> let p = nint t in let lv = nint t in let k = next t in let lg = nint t in (p, lv, (if k = "E" then WEio else if k.[0] = 'S' || k.[0] = 'T' then classify_pwrite (n_of_int 1024) (k.[0] = 'T') (PwCount (n_of_int (int_of_string (String.sub k 1 (String.length k - 1))))) else WErr), lg)) in
+  let l = rep n (fun () -> let p = nint t in let lv = nint t in let k = next t in let lg = nint t in (p, lv, (if k = "E" then WEio else if k.[0] = 'S' then classify_pwrite (n_of_int 1024) (PwCount (n_of_int (int_of_string (String.sub k 1 (String.length k - 1))))) else WErr), lg)) in
   ((fun (pos : nat) (lev : nat) ->
      let p = int_of_nat pos and lv = int_of_nat lev in
      match List.find_opt (fun (p', l', _, _) -> p' = p && l' = lv) l with Some (_, _, w, _) -> w | None -> WOk),
